@@ -25,6 +25,11 @@ CHECKS = {
    technique="TLA+ specification of structural equality (FoEq.tla) with TLC checking the equivalence laws and enumerating every same-typed pair of a bounded value universe; results of the real frt.OpEqual/OpNotEqual on fc-emitted Go types validated by TLC (FoEqTrace.tla)",
    text="StructEq over a bounded universe of first-order values (16 Folang types; every slice in each library-produced representation: literal, slice.New, nil from Filter/Map, Take/Skip results, PopLast/Tail views, views of the other operand's own array) is checked by TLC to be an equivalence that ignores representations. Every same-typed pair is then evaluated by the real runtime (a = b, a <> b, b = a, under recover) on values of the Go types fc itself emits for the declarations, and TLC validates each recorded result. Exhaustive under the bound.",
    note="Trusted: FoEq.tla's StructEq; the decoder of drv_eq that builds Go values from abstract values; nesting depth <= 3; generic OpEqual is instantiated at the static Folang type."),
+ "C08": dict(
+   category="model_checking", design_ref="4.8", engine="FoPrec",
+   technique="TLA+ model of the precedence-climbing loop and of the declarative grouping (FoPrec.tla), TLC checks them equal on every enumerated chain; the chains are transpiled by the real fc, the emitted Go expression trees are recovered with go/parser and validated by TLC (FoPrecTrace.tla)",
+   text="The published operator table, the parser's precedence-climbing loop (as a machine) and the declarative grouping are explicit in TLA+; TLC proves machine = declarative for all 22,620 chains of 1-4 non-pipe operators plus operand variants (application, not, parentheses) and pipe combinations, and validates, for each of them and for line-broken layouts, the expression tree read back from the Go that the real fc emits. Exhaustive over the stated space in both tiers (thorough adds every line-break position).",
+   note="Trusted: go/parser reading of the emitted Go; the renderer that prints a token chain as a Folang function; operands are int parameters (fc does not type-check operators)."),
 }
 
 def cmd(pid, tier):
